@@ -19,27 +19,51 @@ func contractUnlockConditions(hostKey, renterKey types.UnlockKey) types.UnlockCo
 // revision. Only the revision number and proof output values are allowed to
 // change
 func validateStdRevision(current, revision types.FileContractRevision) error {
-	var oldPayout, validPayout, missedPayout types.Currency
+	// the proposal must have the shape of the current revision before any
+	// output is indexed
+	switch {
+	case len(current.ValidProofOutputs) < 2 || len(current.MissedProofOutputs) < 2:
+		return errors.New("current revision must have renter and host outputs")
+	case len(revision.ValidProofOutputs) != len(current.ValidProofOutputs):
+		return errors.New("valid proof outputs must not change")
+	case len(revision.MissedProofOutputs) != len(current.MissedProofOutputs):
+		return errors.New("missed proof outputs must not change")
+	}
+
+	// the output values are supplied by the renter: sum them without panicking
+	var oldValid, oldMissed, validPayout, missedPayout types.Currency
+	var overflow bool
 	for _, o := range current.ValidProofOutputs {
-		oldPayout = oldPayout.Add(o.Value)
+		if oldValid, overflow = oldValid.AddWithOverflow(o.Value); overflow {
+			return errors.New("valid proof output sum overflows")
+		}
+	}
+	for _, o := range current.MissedProofOutputs {
+		if oldMissed, overflow = oldMissed.AddWithOverflow(o.Value); overflow {
+			return errors.New("missed proof output sum overflows")
+		}
 	}
 	for i := range revision.ValidProofOutputs {
 		if revision.ValidProofOutputs[i].Address != current.ValidProofOutputs[i].Address {
 			return fmt.Errorf("valid proof output %v address should not change", i)
 		}
-		validPayout = validPayout.Add(revision.ValidProofOutputs[i].Value)
+		if validPayout, overflow = validPayout.AddWithOverflow(revision.ValidProofOutputs[i].Value); overflow {
+			return errors.New("valid proof output sum overflows")
+		}
 	}
 	for i := range revision.MissedProofOutputs {
 		if revision.MissedProofOutputs[i].Address != current.MissedProofOutputs[i].Address {
 			return fmt.Errorf("missed proof output %v address should not change", i)
 		}
-		missedPayout = missedPayout.Add(revision.MissedProofOutputs[i].Value)
+		if missedPayout, overflow = missedPayout.AddWithOverflow(revision.MissedProofOutputs[i].Value); overflow {
+			return errors.New("missed proof output sum overflows")
+		}
 	}
 
 	switch {
-	case !validPayout.Equals(oldPayout):
+	case !validPayout.Equals(oldValid):
 		return errors.New("valid proof output sum must not change")
-	case !missedPayout.Equals(oldPayout):
+	case !missedPayout.Equals(oldMissed):
 		return errors.New("missed proof output sum must not change")
 	case revision.UnlockHash != current.UnlockHash:
 		return errors.New("unlock hash must not change")
@@ -51,10 +75,6 @@ func validateStdRevision(current, revision types.FileContractRevision) error {
 		return errors.New("window start must not change")
 	case revision.WindowEnd != current.WindowEnd:
 		return errors.New("window end must not change")
-	case len(revision.ValidProofOutputs) != len(current.ValidProofOutputs):
-		return errors.New("valid proof outputs must not change")
-	case len(revision.MissedProofOutputs) != len(current.MissedProofOutputs):
-		return errors.New("missed proof outputs must not change")
 	case revision.ValidRenterPayout().Cmp(current.ValidRenterPayout()) > 0:
 		return errors.New("renter valid proof output must not increase")
 	case revision.MissedRenterPayout().Cmp(current.MissedRenterPayout()) > 0:
